@@ -37,6 +37,35 @@ pub fn abbreviate_seq(c: &SeqCase) -> Value {
     })
 }
 
+/// enumerated cases with the deepest Huffman codes the structure supports
+pub fn deep_code_cases(id: &str, tier: Tier) -> Vec<SeqCase> {
+    use crate::elem::ElemTy;
+    use crate::seqgen::{Arr, Content, Profile, Recipe};
+    use crate::trees::How;
+    let mut v = Vec::new();
+    let alpha: Vec<u128> = (0..64).collect();
+    let mk = |kind: TreeKind, ty: ElemTy, n: usize, k: u8, arr: Arr, seed: u64| SeqCase {
+        kind,
+        ty,
+        how: How::FromVec,
+        content: Content::Recipe(Recipe { n, alphabet: alpha.clone(), profile: Profile::Deep(k), arr, seed }),
+        tie_seed: seed,
+        plan_seed: seed,
+    };
+    if id == "C02" || id == "C09" {
+        v.push(mk(TreeKind::Hqwt256, ElemTy::U8, 1_318_810, 4, Arr::Shuffled, 2));
+        v.push(mk(TreeKind::Hqwt512Pfs, ElemTy::U32, 1_400_001, 4, Arr::Runs(6), 3));
+    }
+    if id == "C03" {
+        // 24 binary levels in the quick tier, the full 32 in the thorough tier
+        v.push(mk(TreeKind::Hwt, ElemTy::U16, 200_000, 2, Arr::Shuffled, 4));
+        if tier == Tier::Thorough {
+            v.push(mk(TreeKind::Hwt, ElemTy::U8, 9_227_464, 2, Arr::Shuffled, 5));
+        }
+    }
+    v
+}
+
 /// number of levels the plain structures need for max symbol `mx`
 pub fn plain_levels(kind: TreeKind, mx: u128) -> usize {
     let b = bitlen(mx).max(1) as usize;
@@ -105,6 +134,11 @@ impl Prop for SeqExact {
     }
     fn simplify(&self, c: &SeqCase) -> Vec<SeqCase> {
         c.simplify()
+    }
+    fn fixed_cases(&self, tier: Tier) -> Vec<SeqCase> {
+        // deepest codes that still fit the 32-bit code words: 16 quad levels need n >= 1 318 810
+        // (cheapest profile), 32 binary levels n >= 9 227 464 (thorough tier only: ~0.5 GB, 10 s)
+        deep_code_cases(self.id, tier)
     }
     fn run(&self, c: &SeqCase, ctx: &mut Ctx) -> CheckResult {
         let s = c.content.expand();
